@@ -5,4 +5,8 @@ import "errors"
 var (
 	// ErrInvalidHeaderSize indicates the size in the header is incorrect
 	ErrInvalidHeaderSize = errors.New("headersize is incorrect")
+
+	// ErrInvalidBodySize indicates the body size in the header is negative
+	// when read as an int64.
+	ErrInvalidBodySize = errors.New("bodysize is incorrect")
 )
